@@ -42,7 +42,7 @@ UNQ = ["a@", "fn_@", "a-@.b", "@", "x@/y", "-D@=1", "k@=v", "=@", "a@:b", "<@>",
        "\\\"@", "\\\\@", "a\\;b@", "a;b@", "\\t@", "\\n@\\r", "\\$@", "\\" + AT + "@", AT + "VAR@" + AT, "a[@", "@]", "a[[@]]", "[x@",
        "[=x@", "a@=[b", "$<@>", "$ENV{E@}", "${v@}", "${${n@}}", "pre${v@}post", "a@\\ ", "漢字@", "\\[@", "\\]@", "~@", "a@'b", "`@`",
        "a@|b", "&@", "%@%", "!@", "^@", "{@}", "a@?",
-       "ff\x0c@", "vt\x0b@x", "nel\x85@", "ls\u2028@", "ps\u2029@", "nbsp\xa0@", "zw\u200b@", "fs\x1c@"]
+       "\ufeff", "a\ufeff@", "ff\x0c@", "vt\x0b@x", "nel\x85@", "ls\u2028@", "ps\u2029@", "nbsp\xa0@", "zw\u200b@", "fs\x1c@"]
 QUO = ['"q@"', '"two words @"', '"a;b;@"', '"#@"', '"# ; [ ] $ ' + AT + ' < > ( ) @"', '"@ ${v}"', '"esc\\"@"', '"(@)"', '"[[@]]"',
        '" @ "', '"tab\\t@\\n\\r\\;"', '"$<@>"', '"ü漢@"', '""', '"\\\\@"', '"\\(\\)\\#@"', '"line1 @\\\nline2"', '"a@\nb"',
        '"#[[ not a comment @ ]]"', '"#[[[ not doc @"', '"\\ @"', '"a@\\\r\nb"', '"' + AT + '@' + AT + '"', '"\\$@"', '"]]@"', '"[=[@"', '"lit\ttab  @"', '"trailing space @ "', '"ff\x0c @"',
@@ -57,7 +57,7 @@ def strategy(tier):
     p = G.Profile(kinds={"generic"}, generic_cmds=CMDS, arg_pool=POOL, group_depth=3, max_args=6,
                   max_items=8 if tier == "quick" else 14, depth=0, dangling=False, moddoc=False)
     return st.fixed_dictionaries({"module": G.module(p), "layout": G.layout_choices(40), "crlf": st.booleans(),
-                                  "eof_newline": st.booleans()})
+                                  "eof_newline": st.booleans(), "bom": st.sampled_from([False, False, False, True])})
 
 
 def _fix_at(x):
@@ -170,7 +170,10 @@ def evaluate(case):
                 res.fail("argument-boundaries", f"command {k} {c}: expected {wa!r} got {ga!r}")
                 break
     # (c) processed to completion; documented generic commands show the arguments in order
-    run = document_text(text, real_settings(), raw_bytes=text.encode("utf-8"))
+    bom = b"\xef\xbb\xbf" if case.get("bom") else b""
+    if bom:
+        res.labels.append("leading-bom")
+    run = document_text(text, real_settings(), raw_bytes=bom + text.encode("utf-8"))
     if run.exc is not None:
         res.fail("process:" + exc_key(run.exc), repr(run.exc)[:300])
     else:
@@ -219,7 +222,7 @@ def evaluate(case):
         os.makedirs(d, exist_ok=True)
         path = os.path.join(d, "case.cmake")
         with open(path, "wb") as f:
-            f.write(text.encode("utf-8"))
+            f.write(bom + text.encode("utf-8"))
         code, err, calls = cmake_trace(path, d)
         body_calls = [(c, a) for c, a, ln in calls if c.lower() not in ("function", "endfunction")]
         norm_want = []
